@@ -147,8 +147,7 @@ theorem serverPts_nonneg {O log keys org start m} (hS : Scn log keys org) (h : M
   · rw [h', h.p0]; exact hS.orgNonneg 0 hS.k0
   · rw [← hpos]
     have hfl : f ∈ log := by rw [← h.coh.hlog]; exact List.mem_of_mem_take hf
-    have := hS.above 0 hS.k0 f hfl ((beq_some_iff f 0).1 hP)
-    have := hS.orgNonneg 0 hS.k0
+    have := (hS.above 0 hS.k0 f hfl ((beq_some_iff f 0).1 hP)).2.2
     omega
 
 theorem serverChan_nonneg {O log keys org start m} (hS : Scn log keys org) (h : MInv O log keys org start m)
@@ -158,8 +157,7 @@ theorem serverChan_nonneg {O log keys org start m} (hS : Scn log keys org) (h : 
   · rw [h', h.c0 c hk]; exact hS.orgNonneg _ hk
   · rw [← hpos]
     have hfl : f ∈ log := by rw [← h.coh.hlog]; exact List.mem_of_mem_take hf
-    have := hS.above _ hk f hfl ((beq_some_iff f (2 + c)).1 hP)
-    have := hS.orgNonneg _ hk
+    have := (hS.above _ hk f hfl ((beq_some_iff f (2 + c)).1 hP)).2.2
     omega
 
 theorem mkOf_ephemeral (log : List Entry) (n : Nat) : mkOf log (ephemeralBase + n) = true := by
